@@ -248,7 +248,7 @@ int main(int argc, char **argv)
         }
         for (int i = NI; i < MAXTOK; i++) IA[i] = 0;
         out_begin(lineno, name);
-        if (!strncmp(name, "spec_", 5)) { /* model-side only: the RFC specification */ }
+        if (!strncmp(name, "spec_", 5) || !strcmp(name, "secrets")) { /* model-side only */ }
         else if (!leaf_op(name) && !api_op(name, lineno)) out_z(-1);
         out_end();
         fflush(stdout);
